@@ -545,13 +545,13 @@ void h_m_at(void) { VF_INPUT(unsigned char, d); VF_INPUT_BOOL(rng); __CPROVER_as
 
 /*@COMMON@*/
 /* ---- inplace_function<int(int),8,1>: _storage holds a live callable (tag 3) <=> _vtable is not the empty vtable -------
- * g_15_empty_vtable / g_16_vt / g_17_vt are cxx2c's names for detail::empty_vtable<int,int> and for the function-local
+ * g__ZN3etl6detail12empty_vtableIiJiEEE / g__ZZN3etl16inplace_functionIFiiELm8ELm1EEC1IRKN2vf2FnES5_EEOT_E2vt / g__ZZN3etl16inplace_functionIFiiELm8ELm1EEC1IN2vf2FnES5_EEOT_E2vt are cxx2c's names for detail::empty_vtable<int,int> and for the function-local
  * `static constexpr vtable_t vt` of the two converting constructors (from Fn const& and from Fn&&). */
 typedef struct etl_inplace_function_int_int_8_1 F;
 typedef struct vf_Fn FN;
-#define VT_EMPTY (&g_15_empty_vtable)
-#define VT_FN_C (&g_16_vt)
-#define VT_FN_M (&g_17_vt)
+#define VT_EMPTY (&g__ZN3etl6detail12empty_vtableIiJiEEE)
+#define VT_FN_C (&g__ZZN3etl16inplace_functionIFiiELm8ELm1EEC1IRKN2vf2FnES5_EEOT_E2vt)
+#define VT_FN_M (&g__ZZN3etl16inplace_functionIFiiELm8ELm1EEC1IN2vf2FnES5_EEOT_E2vt)
 #define FEL(f) ((FN *)&(f)._storage)
 #define FENG(f) ((f)._vtable != VT_EMPTY)
 static void own_fun(int k, F *f, unsigned char sel) { vf_region_set(k, FEL(*f), sizeof f->_storage, 1); __CPROVER_assume(sel <= 2); f->_vtable = sel == 0 ? VT_EMPTY : (sel == 1 ? VT_FN_C : VT_FN_M); vf_region_live_prefix(k, sel != 0, 3); }
